@@ -12,7 +12,7 @@ from minecraft.networking.types import basic
 from minecraft.networking.types.basic import VarInt, VarLong
 
 from pyvc.driver import Unit
-from pyvc.values import SInt, SBool, SBytes, W, mk_bool, And, Or, Not, byte_to_int
+from pyvc.values import SInt, SBool, SBytes, W, mk_bool, And, Or, Not, byte_to_int, Unsupported
 from pyvc.models import ArbitraryStream, OutSocket, InStream
 from pyvc.interp import PyRaise
 from pyvc.loops import LoopSpec
@@ -80,7 +80,7 @@ class ReadArbitrary(Unit):
         s = ArbitraryStream(I, 's')
         self.stream = s
         try:
-            r = I.call(_raw(VarInt, 'read'), cls, s)
+            r = I.call(I.getattr_(cls, 'read'), s)
             outcome = ('value', r)
         except PyRaise as e:
             outcome = ('raise', e.exc)
@@ -210,7 +210,7 @@ class SendCanonical(Unit):
         self.n = n
         sock = OutSocket()
         try:
-            I.call(_raw(VarInt, 'send'), n, sock)
+            I.call(I.getattr_(getattr(self, 'cls', VarInt), 'send'), n, sock)
         except PyRaise as e:
             E.check('send.no-raise', False, note='raised %r for an in-domain value' % (e.exc,))
             return ('raise', e.exc)
@@ -231,7 +231,7 @@ class SendCanonical(Unit):
         # round trip through the real decoder
         st = InStream(I, out)
         try:
-            r = I.call(_raw(VarInt, 'read'), self.cls, st)
+            r = I.call(I.getattr_(self.cls, 'read'), st)
         except PyRaise as e:
             E.check('roundtrip.value', False, note='decoder raised %r on enc(n)' % (e.exc,))
             return ('out', out)
@@ -322,7 +322,7 @@ class SendTerminates(Unit):
             frame.locals['value'] = I_.E.new_int('value@head')
             frame.locals['out'] = SBytes([I_.E.new_blob('out@head')])
         if key is None:
-            raise RuntimeError('send has no while loop any more')
+            raise Unsupported('contract does not fit the code any more: send has no while loop any more')
         I.loop_specs[key] = LoopSpec('send.loop', inv, havoc, variant)
 
     def run(self, I):
@@ -330,7 +330,7 @@ class SendTerminates(Unit):
         n = E.new_int('n')
         sock = OutSocket()
         try:
-            I.call(_raw(VarInt, 'send'), n, sock)
+            I.call(I.getattr_(getattr(self, 'cls', VarInt), 'send'), n, sock)
         except PyRaise as e:
             # raising is a terminating outcome; it must not happen inside the encoder's domain
             E.check('send.raise-only-outside-domain', n < 0,
@@ -368,7 +368,7 @@ class Size(Unit):
         n = E.new_int('n', 0, (1 << 84) - 1)
         self.n = n
         try:
-            r = I.call(_raw(VarInt, 'size'), n)
+            r = I.call(I.getattr_(VarInt, 'size'), n)
         except PyRaise as e:
             E.check('size.no-raise', False, note='raised %r' % (e.exc,))
             return None
